@@ -294,6 +294,24 @@ func init() {
 		}
 		g.def("headersFrameWrittenUnconditionally", "Bool", boolLean(uncond))
 
+		// ---- the framers accept what the endpoints advertise ----------------------------------------
+		// Each endpoint's SETTINGS_MAX_FRAME_SIZE is forwarded unchanged, so the peer may send frames of
+		// any legal size up to 2^24-1: no framer of the proxy may be given a smaller read limit
+		// (http2.NewFramer's default is the legal maximum).
+		capped := false
+		for _, file := range []*ast.File{h2f0(), relay} {
+			ast.Inspect(file, func(x ast.Node) bool {
+				if c, ok := x.(*ast.CallExpr); ok && strings.HasSuffix(src(c.Fun), ".SetMaxReadFrameSize") && len(c.Args) == 1 {
+					a := strings.ReplaceAll(src(c.Args[0]), " ", "")
+					if a != "1<<24-1" && a != "16777215" {
+						capped = true
+					}
+				}
+				return true
+			})
+		}
+		g.def("framersAcceptAdvertisedFrameSizes", "Bool", boolLean(!capped))
+
 		// forwardPreface reads the whole preface (io.ReadFull), not whatever one Read returns
 		h2f := parse("h2/h2.go")
 		full := false
@@ -307,6 +325,8 @@ func init() {
 		g.def("prefaceReadInFull", "Bool", boolLean(full))
 	})
 }
+
+func h2f0() *ast.File { return parse("h2/h2.go") }
 
 func boolLean(b bool) string {
 	if b {
